@@ -22,6 +22,10 @@ def check(run, replay=None):
                  "2*(N+1)/2) and random pairs under every toy, mid-size and key-sized key in all four configurations; "
                  "scalars with limb structure (2^(64j) and neighbours, cleared interior limbs, a single non-zero limb, top bit set); "
                  "the neutral ciphertext 1 = Enc(0;1) = c^0 on either side of add, N+1, N^2-1; "
+                 "chains: a pool of ciphertexts whose operands are results of earlier add / mul / mul_vartime calls (depth up to 32 for toy "
+                 "keys, 4-8 for key-sized keys; scalars N-1, (N+1)/2, 2, random), each call against the closed forms and both "
+                 "decryptions of the carried plaintext -- the executable side of hom_tree / add_hom_any_ciphertext / "
+                 "mul_hom_any_ciphertext; "
                  "both decryption paths; mul vs mul_vartime ciphertext equality. A sample goes to the Coq model. "
                  "non-trivial = distinct in-Coq record whose operands are not 0/1"),
     }
